@@ -8,8 +8,8 @@ Open Scope Z_scope.
 (* withVars: "maxSleep is the max sleep time in millisecond. When it is multiplied by BackOffWeight, it should not be
    greater than MaxInt32": `b.maxSleep > 0 && math.MaxInt32/b.vars.BackOffWeight >= b.maxSleep` divides by zero for
    BackOffWeight = 0 *)
-Lemma dom_weight0_new e w m v x : nth_error (w_vars w) v = Some x -> v_weight x = 0 -> step e w (ONew m v 0) = (w, RBad).
-Proof. intros H H0. simpl. rewrite H, H0. reflexivity. Qed.
+Lemma dom_weight0_new e w m v x : nth_error (w_vars w) v = Some x -> v_weight x = 0 -> 0 < m -> step e w (ONew m v 0) = (w, RBad).
+Proof. intros H H0 P. simpl. apply Z.ltb_lt in P. rewrite H, H0, P. reflexivity. Qed.
 
 Lemma dom_weight0_resetmax e w i b m v x : nth_error (w_bos w) i = Some b -> b_live b = true -> 0 < m ->
   b_vars b = Some v -> nth_error (w_vars w) v = Some x -> v_weight x = 0 -> step e w (OResetMax i m) = (w, RBad).
@@ -45,7 +45,7 @@ Qed.
 
 Lemma domain_weight0 : forall e w v x,
   nth_error (w_vars w) v = Some x -> v_weight x = 0 ->
-  (forall m, step e w (ONew m v 0) = (w, RBad)) /\
+  (forall m, 0 < m -> step e w (ONew m v 0) = (w, RBad)) /\
   (forall i b m, nth_error (w_bos w) i = Some b -> b_live b = true -> 0 < m -> b_vars b = Some v ->
                  step e w (OResetMax i m) = (w, RBad)).
 Proof. intros e w v x H H0. split; intros; [eapply dom_weight0_new|eapply dom_weight0_resetmax]; eauto. Qed.
